@@ -227,6 +227,15 @@ UndefIds == (0..255) \ DefinedIds
 NProps(p) == IF "Props" \in DOMAIN p.v THEN Len(p.v["Props"]) ELSE 0
 (* base packets for cuts and prefixes: at most one property, or the full ascending section; *)
 (* for the exhaustive identifier / boolean sweeps: two packets per type                     *)
+(* packets the API can build whose frames are not fully valid MQTT (empty filter strings), so they are not in the *)
+(* frames family; C01 still demands the round trip                                                              *)
+BuildOnly(t) ==
+  IF t = 10 THEN {[t |-> 10, fl |-> 2, v |-> [PacketID |-> 5, Props |-> <<>>, Filters |-> fs]] :
+                    fs \in {<<Txt(3), <<>>, Txt(2)>>, <<<<>>>>, <<Txt(1), <<>>>>, <<<<>>, Txt(2), <<>>, Txt(4)>>,
+                            <<Txt(3), <<>>, Txt(4)>>, <<Txt(2), <<>>, Txt(5)>>}}
+  ELSE IF t = 8 THEN {[t |-> 8, fl |-> 2, v |-> [PacketID |-> 5, Props |-> <<>>, Filters |-> fs]] :
+                    fs \in {<< <<Txt(3), 1>>, <<<<>>, 0>>, <<Txt(2), 2>> >>, << <<<<>>, 1>> >>}}
+  ELSE {}
 WillNProps(p) == IF "WillProps" \in DOMAIN p.v THEN Len(p.v["WillProps"]) ELSE 0
 BaseForMutants(t) ==
   LET small == {p \in WirePkts(t) : NProps(p) <= 1 /\ WillNProps(p) <= 1}
@@ -234,7 +243,7 @@ BaseForMutants(t) ==
       \* packets with a multi-byte variable byte integer: subscription identifier, long property section
       vbis == {p \in small : NProps(p) = 1 /\ (p.v["Props"][1][1] = 11 \/ Len(EncPropBody(p.v["Props"])) > 127)}
   IN Sample(small, IF Thorough THEN 400 ELSE 40) \cup Sample(full, IF Thorough THEN 10 ELSE 2)
-     \cup Sample(vbis, IF Thorough THEN 20 ELSE 3)
+     \cup Sample(vbis, IF Thorough THEN 20 ELSE 3) \cup BuildOnly(t)
 SweepBase(t) ==
   LET w == {p \in WirePkts(t) : "Props" \in DOMAIN p.v}
       none == {p \in w : NProps(p) = 0}
@@ -267,6 +276,9 @@ MutantCases ==
              \* a property that MQTT defines but not for this packet, with a well-formed value (verdict "either")
              \cup {[kind |-> "foreign", p |-> p, pos |-> pos, id |-> id] :
                   p \in SweepBase(t), pos \in 1..2, id \in DefinedIds \ Allowed(t)}
+             \* a subscription identifier where MQTT allows none, its integer cut short or five bytes long
+             \cup {[kind |-> "badsubid", t |-> t, val |-> val, tail |-> tl] :
+                  val \in {<<128>>, <<128, 128>>, <<255, 255, 255, 255, 127>>, <<255, 255, 255, 128, 1>>}, tl \in {<<>>, <<38, 0, 1, 98, 0, 1, 98>>}}
              \* a property repeated (protocol error, verdict "either"): same value, zero / empty value, both orders
              \cup UNION {{[kind |-> "dupprop", p |-> p, pos |-> pos, zero |-> z, first |-> fs] :
                             pos \in 1..NProps(p), z \in BOOLEAN, fs \in BOOLEAN} : p \in {q \in base : NProps(q) \in 1..2}}
@@ -292,6 +304,13 @@ MutantFrame(m) ==
                 body == SubSeq(f, d.hdr + 1, x.s - 1) \o Pad5(val, m.b5) \o SubSeq(f, x.e + 1, Len(f))
             IN <<f[1]>> \o VBI(Len(body)) \o body
   ELSE IF m.kind = "foreign" THEN Encode(WithProp(m.p, m.pos, PV(m.id, SampleVal(m.id))))
+  ELSE IF m.kind = "badsubid" THEN
+       LET pre == IF m.t = 1 THEN <<0, 4, 77, 81, 84, 84, 5, 2, 0, 60>> ELSE IF m.t = 2 THEN <<0, 0>> ELSE IF m.t = 3 THEN <<0, 1, 97>>
+                  ELSE IF m.t \in 4..7 THEN <<0, 1, 0>> ELSE IF m.t \in 8..11 THEN <<0, 1>> ELSE IF m.t \in {14, 15} THEN <<0>> ELSE <<>>
+           props == <<11>> \o m.val \o m.tail
+           post == IF m.t = 1 THEN <<0, 0>> ELSE IF m.t = 8 THEN <<0, 1, 97, 0>> ELSE IF m.t = 10 THEN <<0, 1, 97>> ELSE IF m.t \in {9, 11} THEN <<0>> ELSE <<>>
+           body == IF m.t \in {12, 13} THEN <<>> ELSE pre \o <<Len(props)>> \o props \o post
+       IN <<m.t * 16 + (IF m.t \in {6, 8, 10} THEN 2 ELSE 0), Len(body)>> \o body
   ELSE IF m.kind = "dupprop" THEN
        LET pr == m.p.v["Props"][m.pos]
            other == IF m.zero THEN PV(pr[1], IF PropKind(pr[1]) = "pair" THEN <<pr[2][1], <<>>>> ELSE ZeroWire(pr[1])) ELSE pr
@@ -299,7 +318,9 @@ MutantFrame(m) ==
   ELSE IF m.kind = "prefix" THEN SubSeq(f, 1, m.at)
   ELSE <<f[1], 255, 255, 255, 255, m.b5>> \o SubSeq(f, d.hdr + 1, Len(f))
 
-MutantValid(m) == IF m.kind \in {"undef", "foreign"} THEN m.pos <= Len(m.p.v["Props"]) + 1 ELSE TRUE
+MutantValid(m) == IF m.kind \in {"undef", "foreign"} THEN m.pos <= Len(m.p.v["Props"]) + 1
+                  ELSE IF m.kind = "badsubid" THEN m.t \notin {12, 13}
+                  ELSE TRUE
 
 (* EncVal for an undefined identifier: the value bytes are irrelevant, the strict reader stops at the identifier *)
 MutantTheorems(m) ==
@@ -394,7 +415,7 @@ BuildTheorems(p) ==
 (* packets the API can express: an empty user name or password clears its flag *)
 Buildable(p) == p.t = 1 => /\ ("Username" \in DOMAIN p.v => Len(p.v["Username"]) > 0)
                            /\ ("Password" \in DOMAIN p.v => Len(p.v["Password"]) > 0)
-BuildCases == UNION { {[kind |-> "build", p |-> p] : p \in {q \in WirePkts(t) \cup LongOnes(t) \cup SizedOnes(t) : Buildable(q)}} : t \in TYPES }
+BuildCases == UNION { {[kind |-> "build", p |-> p] : p \in BuildOnly(t)} : t \in TYPES } \cup UNION { {[kind |-> "build", p |-> p] : p \in {q \in WirePkts(t) \cup LongOnes(t) \cup SizedOnes(t) : Buildable(q)}} : t \in TYPES }
 
 Cases == IF FAMILY = "frames" THEN FrameCases
          ELSE IF FAMILY = "mutants" THEN {m \in MutantCases : MutantValid(m)}
@@ -415,6 +436,7 @@ ProgOf(x) ==
        THEN [fam |-> "mutants", meta |-> [kind |-> x.kind, t |-> x.p.t],
              steps |-> << [op |-> "Stream", stream |-> 1, bytes |-> MutantFrame(x)],
                           [op |-> "ReadPacket", h |-> 1, stream |-> 1] >>]
+  ELSE IF x.kind = "badsubid" THEN ReadProg("mutants", MutantFrame(x), [kind |-> x.kind, t |-> x.t])
   ELSE ReadProg("mutants", MutantFrame(x), [kind |-> x.kind, t |-> x.p.t])
 
 Emit == PrintT(<<"PROG", ToJson(ProgOf(c))>>)
